@@ -94,7 +94,9 @@ def _keep_step(prop, inst):
     if "g3::" in k:
         return prop == "C19"
     if "activeCov" in k or "Cluster" in k:
-        return prop == "C10"
+        # the covariance block of the observations that survive revision: C10 (sub-matrix of the remaining ones)
+        # and C14 (excluding an observation of a correlated cluster equals deleting it)
+        return prop in ("C10", "C14")
     if "summary" in k:
         return prop == "C12"
     return prop in ("C01",)
